@@ -421,6 +421,44 @@ theorem C06_data_axis_sampled (off si pos ext : Rat) (hsi : 0 < si)
     WindowMeaning (sampledCoord off si) none pos (pos + ext) s x :=
   sampled_axis_meaning off si pos ext hsi hs1 hs2 s x h hx
 
+open Nix.ViewData Nix.Dim in
+/-- `_get_slice_bydim` as written in the source has the statement shape `Pure/ViewData.lean` was
+written against (which conversion with which mode, the `IndexError` handler of the range branch
+only, `int(…)` for sets, the early `return DataView(self, None)` on a negative extent, the window
+`slice(p, p + e)`), and `index_of` called without a mode means `LessOrEqual` for every descriptor
+class — the `.leq` of `bydimAxis` -/
+theorem C06_source_bydim :
+    bydimShape = [
+      "dpos, dext = ([], [])",
+      "for (dim, pos, ext) in zip(self.dimensions, positions, extents):",
+      "  if dim.dimension_type == DimensionType.Sample:",
+      "    start_pos = dim.index_of(pos, mode=IndexMode.GreaterOrEqual)",
+      "    extent = dim.index_of(pos + ext) - start_pos",
+      "  elif dim.dimension_type == DimensionType.Range:",
+      "    try:",
+      "      start_pos = dim.index_of(pos, mode=IndexMode.GreaterOrEqual)",
+      "      extent = dim.index_of(pos + ext) - start_pos",
+      "    except IndexError:",
+      "      start_pos = -1",
+      "      extent = -1",
+      "    except Exception:",
+      "      raise e",
+      "  elif dim.dimension_type == DimensionType.Set:",
+      "    start_pos = int(pos)",
+      "    extent = int(ext)",
+      "  else:",
+      "    raise IncompatibleDimensions",
+      "  if extent < 0:",
+      "    return DataView(self, None)",
+      "  dpos.append(start_pos)",
+      "  dext.append(extent)",
+      "slices = tuple((slice(p, p + e) for p, e in zip(dpos, dext)))",
+      "return DataView(self, slices)"] ∧
+    indexOfDefaultMode.map Prod.fst = ["SampledDimension", "RangeDimension", "SetDimension"] ∧
+    (∀ p ∈ indexOfDefaultMode, IndexMode.ofName p.2 = .leq) ∧
+    IndexMode.ofName "GreaterOrEqual" = .geq := by
+  refine ⟨by decide, by decide, by decide, by decide⟩
+
 /-! Non-vacuity: concrete views and tuples meeting the hypotheses, evaluated by the kernel. -/
 
 /-- `da.get_slice((1, 1), (2, 2))` on a 3×4 array -/
